@@ -68,14 +68,23 @@ type vc9Comp struct {
 	failStop  bool
 	starts    int
 	stops     int
+	// mode 2: the component reports a recoverable error from inside its own Start and stays in it
+	reportsRecoverable bool
+	instance           *componentstatus.InstanceID
 }
 
 var errVc9Start = errors.New("component start failed")
 var errVc9Stop = errors.New("component stop failed")
 
-func (c *vc9Comp) Start(context.Context, component.Host) error {
+func (c *vc9Comp) Start(_ context.Context, host component.Host) error {
 	c.starts++
 	c.w.events = append(c.w.events, "start:"+c.key)
+	if hw, ok := host.(*HostWrapper); ok {
+		c.instance = hw.InstanceID
+	}
+	if c.reportsRecoverable {
+		componentstatus.ReportStatus(host, componentstatus.NewRecoverableErrorEvent(errVc9Start))
+	}
 	if c.failStart {
 		return errVc9Start
 	}
@@ -592,6 +601,39 @@ func VerifC09Graph() {
 		}
 		if len(allPaths) > 1 {
 			vReach("several-paths")
+		}
+		vReach("end")
+		return
+	}
+
+	if mode == 2 {
+		// ---- status events of start-up (C11) -------------------------------------------------------------
+		// one component (symbolic which, or none) reports RecoverableError from inside its Start and returns
+		// nil: the automatic OK after a successful start is emitted only for components still in Starting
+		who := vNondetInt("reports-recoverable-during-start")
+		vAssume(who >= -1 && who < len(w.insts))
+		for i, c := range w.insts {
+			c.reportsRecoverable = i == who
+		}
+		seqs := map[*componentstatus.InstanceID][]componentstatus.Status{}
+		rep := status.NewReporter(func(id *componentstatus.InstanceID, ev *componentstatus.Event) {
+			seqs[id] = append(seqs[id], ev.Status())
+		}, func(error) {})
+		vAssert(g.StartAll(context.Background(), &Host{Reporter: rep}) == nil, "start-status/start-succeeds")
+		for _, c := range w.insts {
+			vAssert(c.instance != nil, "start-status/component-started-with-its-instance-id")
+			if c.instance == nil {
+				continue
+			}
+			seq := seqs[c.instance]
+			if c.reportsRecoverable {
+				vReach("reported-during-start")
+				vAssert(len(seq) == 2 && seq[0] == componentstatus.StatusStarting && seq[1] == componentstatus.StatusRecoverableError,
+					"start-status/no-automatic-ok-for-a-component-that-left-starting")
+			} else {
+				vAssert(len(seq) == 2 && seq[0] == componentstatus.StatusStarting && seq[1] == componentstatus.StatusOK,
+					"start-status/starting-then-automatic-ok")
+			}
 		}
 		vReach("end")
 		return
